@@ -237,6 +237,29 @@ func (p *c03Priv) Items() []string { return p.items }
 
 type c03PrivSchem struct{ Query *c03Priv }
 
+type c03Var struct{ B int32 }
+
+func (q *c03Var) Names(names ...string) string { return strings.Join(names, ",") }
+func (q *c03Var) Tags(tags ...string) string   { return strings.Join(tags, ",") }
+
+type c03VarSchem struct{ Query *c03Var }
+
+type c03PIn struct {
+	Tags []string
+	N    int
+	P    []*int32
+}
+type c03InQ struct{ B int32 }
+
+func (q *c03InQ) Take(in *c03PIn) int32 {
+	if in == nil {
+		return -1
+	}
+	return int32(len(in.Tags))
+}
+
+type c03InSchem struct{ Query *c03InQ }
+
 func c03Root(strategy string) *ggql.Root {
 	var root *ggql.Root
 	switch strategy {
@@ -337,6 +360,18 @@ func c03RunEntry(kind string, arg1, arg2, arg3 []byte) T {
 			root = ggql.NewRoot(top())
 			_ = root.ParseString("type Query { b: Int }\ntype M { m(x: Int): Int }")
 			_ = root.ParseString("extend schema { mutation: M }")
+		case "reflect-variadic-method":
+			// a field bound to a variadic Go method: the arguments must be checked against the variadic parameter
+			// too (reflect.Value.Call panics on a mismatch)
+			root = ggql.NewRoot(&c03VarSchem{Query: &c03Var{}})
+			_ = root.ParseString("type Query { b: Int names(a: Int): String tags(a: String, b: String): String }")
+			reqs = append(reqs, "{ names(a: 3) }", "{ names }", `{ tags(a: "x", b: "y") }`, `{ tags(a: "x") }`, "{ tags }")
+		case "reflect-input-null-member":
+			// an input object bound to a Go struct, given a list with a null member for a []string field
+			root = ggql.NewRoot(&c03InSchem{Query: &c03InQ{}})
+			_ = root.ParseString("input PIn { tags: [String] n: Int p: [Int] }\ntype Query { b: Int take(in: PIn): Int }")
+			_ = root.RegisterType(&c03PIn{}, "PIn")
+			reqs = append(reqs, "{ take(in: {tags: [null], n: 1}) }", "{ take(in: {tags: null, n: null}) }", "{ take(in: {p: [1, null]}) }", `{ take(in: {tags: ["a"], n: 2}) }`)
 		case "reflect-unexported-member":
 			// a Go struct with an unexported member whose name is a field's name in another case, next to the
 			// method that serves the field: reflection must not read the member
@@ -1110,8 +1145,20 @@ func runC03(o *Out, r *Rng, tier string) {
 		cases = append(cases, c03Entry("resolve", "reflect", strings.Repeat("{o", n), "{}", "very-deep"))
 		cases = append(cases, c03Entry("resolve", "iface", "{a(x: "+strings.Repeat("[", n)+")}", "{}", "very-deep"))
 	}
+	for _, doc := range []string{"query($v: []) { a }", "query($v: [[]]!) { a }", "query($v: [] = 1) { a(x: $v) }"} {
+		for _, st := range []string{"iface", "reflect"} {
+			cases = append(cases, c03Entry("resolve", st, doc, "{}", "list-type-without-member"))
+		}
+	}
+	for _, str := range []string{"\U000F0001", "tag\U000E0001", "\U0010FFFF", "caf\ufffd", "\U0001D173"} {
+		cases = append(cases, c03Entry("value", `["`+str+`", {k: "`+str+`"}]`, "", "", "unicode-beyond-bmp"))
+		cases = append(cases, c03Entry("load", `"`+str+`" type Query { a(x: String = "`+str+`"): Int }`, "", "", "unicode-beyond-bmp"))
+		cases = append(cases, c03Entry("resolve", "iface", `{ a(x: "`+str+`") }`, "{}", "unicode-beyond-bmp"))
+	}
+	cases = append(cases, c03Entry("load", "type Query { a: [] }", "", "", "list-type-without-member"))
+	cases = append(cases, c03Entry("load", "type Query { a(x: [[]]): Int }", "", "", "list-type-without-member"))
 	for _, sc := range []string{"fresh", "fresh-nilobj", "zero", "addtypes", "addtypes-then-load", "failed-load-only", "enum-then-query",
-		"extend-schema-fresh", "extend-schema-dir-fresh", "extend-schema-implied", "reflect-unexported-member"} {
+		"extend-schema-fresh", "extend-schema-dir-fresh", "extend-schema-implied", "reflect-unexported-member", "reflect-variadic-method", "reflect-input-null-member"} {
 		cases = append(cases, c03Entry("api", sc, "", "", "api-root"))
 	}
 	for i := 0; len(cases)-entryStart < nEntry; i++ {
